@@ -117,6 +117,11 @@ def outcome(fn):
         inner = frames[-1].filename if frames else ""
         if m and inner.startswith(REPO) and m.group(1) not in L._CLASSES and not hasattr(L, m.group(1)) and not _is_shim_class(m.group(1)):
             return (type(e).__name__, str(e))
+        # attributes that the real binding does not have either (checked against src/python/content.cpp: toIndexedOptionArray64
+        # is defined for ByteMaskedArray, BitMaskedArray and UnmaskedArray only): the library's own AttributeError
+        m2 = re.match(r"'(IndexedOptionArray32|IndexedOptionArray64|IndexedArray32|IndexedArrayU32|IndexedArray64)' object has no attribute 'toIndexedOptionArray64'", str(e))
+        if m2 and inner.startswith(REPO):
+            return (type(e).__name__, str(e))
         raise
     except Exception as e:  # noqa: B902
         frames = traceback.extract_tb(e.__traceback__)
